@@ -33,8 +33,8 @@ type callerOut struct {
 
 func H_C17_two_callers() {
 	withPanics = true
-	lenA := 1 + rt.Choose("lenA", rt.Bound("caller_chain_len_max", 2, 3))
-	lenB := 1 + rt.Choose("lenB", rt.Bound("caller_chain_len_max", 2, 3))
+	lenA := 1 + rt.Choose("lenA", rt.Bound("caller_chain_len_max", 2, 2))
+	lenB := 1 + rt.Choose("lenB", rt.Bound("caller_chain_len_max", 2, 2))
 	all := buildChain(lenA+lenB, rt.Bound("caller_urls_per_kind_max", 1, 1))
 	chA, chB := all[:lenA:lenA], all[lenA:]
 	theChain = all
